@@ -364,7 +364,9 @@ func c19Matrix(f func(admitted, fallback bool, handler string)) {
 }
 
 var c19Bools = []bool{true, false}
-var c19Handlers = []string{"ok", "err", "panic"}
+// "errtyped": the handler fails with the framework's own error type carrying a client-error status (where the
+// framework has one; elsewhere it is a second plain failure)
+var c19Handlers = []string{"ok", "err", "panic", "errtyped"}
 
 func c19Name(ep string, admitted, fallback bool, handler string) string {
 	if c19PairTag != "" {
@@ -454,7 +456,7 @@ func c19KitexCase(t *testing.T, ep string, admitted, fallback bool, handler stri
 			r.SetInstance(discovery.NewInstance("tcp", "127.0.0.1:19019", 10, nil))
 		}
 		switch handler {
-		case "err":
+		case "err", "errtyped":
 			return c19ErrHandler
 		case "panic":
 			panic("c19 handler panic")
